@@ -39,7 +39,7 @@ def filters_for(tier, uname="U1"):
             multi = [fl for fl in Q.W_multi(tier) if len(fl) <= 5]
             # explicit small limits: completeness is demanded whenever the number of matches does not exceed the limit
             limited = []
-            for f in Q.W_single("quick")[:: (7 if tier == "quick" else 3)]:
+            for f in Q.W_single("quick")[:: (23 if tier == "quick" else 3)]:
                 for lim in (1, 2, 5):
                     limited.append([dict(f, limit=lim)])
             fo = Q.field_options()
